@@ -15,6 +15,13 @@ CHECKS = {
             "permute_systems, swap, permutation_operator, swap_operator is executed and compared cell-by-cell with a mixed-radix "
             "index oracle and with a prime-filled Kronecker-factor oracle. For a gather the verdict per configuration holds for every entry value.",
             "numpy indexing moves entries without arithmetic (checked with formal labels); shapes beyond the bound not covered"),
+    "C18": ("exploration",
+            "complete enumeration of the stated finite space on the real code vs combinatorial reference",
+            "The whole space named by the property is enumerated: all (d,p) in 1..4 with d^p<=256, partial on/off; all 873 permutations "
+            "of <=6 elements and all ordered pairs for n<=5 (multiplicativity); all multisets of size <=6 over <=3 (thorough: 6) symbols; "
+            "all n<=10 in int/list/ndarray/label forms. Oracles: Hermitian idempotent of binomial rank with W_pi P = [sgn pi] P for every "
+            "reference permutation operator, orthogonality, p=2 completeness, isometry forms; (-1)^inversions; set(itertools.permutations); (n-1)!! distinct matchings.",
+            "float comparisons at 1e-9 on matrices with entries k/p!; reference permutation operators from mc.ref.tensor_index"),
 }
 
 PENDING_REASON = "check not built yet in this session (work in progress; see DESIGN.md section 7 for the planned exploration)"
